@@ -29,8 +29,8 @@ def valsAgree (text : Bool) (b : Nat) : Bool :=
 theorem vals_agree : (List.range 256).all (fun b => valsAgree false b && valsAgree true b) = true := by
   decide +kernel
 
-theorem prefix_ok (text : Bool) (b : Nat) (hb : b < 256) (k : Nat) (hk : k < (c40Vals text b).length) (out : List Nat) :
-    ∃ st, c40Values (tabs text).1 (tabs text).2 ((c40Vals text b).take k) st0 out = .ok (st, out) := by
+theorem prefix_ok (text : Bool) (b : Nat) (hb : b < 256) (k : Nat) (hk : k < (c40Vals text b).length) :
+    ∃ st, ∀ out, c40Values (tabs text).1 (tabs text).2 ((c40Vals text b).take k) st0 out = .ok (st, out) := by
   have h := prefixes_ok
   rw [List.all_eq_true] at h
   have hb' := h b (List.mem_range.mpr hb)
@@ -39,7 +39,6 @@ theorem prefix_ok (text : Bool) (b : Nat) (hb : b < 256) (k : Nat) (hk : k < (c4
   unfold prefixOK at hp
   rw [List.all_eq_true] at hp
   have := hp k (List.mem_range.mpr hk)
-  rw [c40Values_prefix]
   cases hc : c40Values (tabs text).1 (tabs text).2 ((c40Vals text b).take k) st0 [] with
   | error e => rw [hc] at this; simp at this
   | ok r =>
@@ -47,7 +46,9 @@ theorem prefix_ok (text : Bool) (b : Nat) (hb : b < 256) (k : Nat) (hk : k < (c4
     rw [hc] at this
     simp only [beq_iff_eq] at this
     subst this
-    exact ⟨st, by simp⟩
+    refine ⟨st, fun out => ?_⟩
+    rw [c40Values_prefix, hc]
+    simp
 
 theorem toVals_eq (text : Bool) (buf : List Nat) (b : Nat) (hb : b < 256) :
     toVals text buf b = if (buf ++ c40Vals text b).length > 6 then .error (.panic "ArrayVec capacity")
@@ -141,5 +142,336 @@ theorem seg_c40_vals (text : Bool) (V chars : List Nat) (st' : CSt) (n : Nat) (h
       simp only []
       congr 2
       omega
+
+/-! ### encoder: flushing complete triples -/
+
+theorem flush_spec : ∀ (f : Nat) (s : St) (buf : List Nat), buf.length < 3 * f + 3 → (∀ v ∈ buf, v < 40) →
+    ∃ k, 3 * k ≤ buf.length ∧ buf.length - 3 * k < 3 ∧
+      flushTriples f s buf = ({ s with cw := s.cw ++ packTriples (buf.take (3 * k)) }, buf.drop (3 * k)) := by
+  intro f
+  induction f with
+  | zero =>
+    intro s buf hl _
+    exact ⟨0, by omega, by omega, by simp [flushTriples, packTriples]⟩
+  | succ f ih =>
+    intro s buf hl hlt
+    match buf, hl, hlt with
+    | a :: b :: c :: t, hl, hlt =>
+      have ha := hlt a (by simp)
+      have hb := hlt b (by simp)
+      have hc := hlt c (by simp)
+      obtain ⟨w1, w2, w3, w4, w5, w6, w7⟩ := writeThree_cw s a b c ha hb hc
+      obtain ⟨k, k1, k2, k3⟩ := ih (writeThree s a b c) t (by simp only [List.length_cons] at hl; omega)
+        (fun v hv => hlt v (by simp [hv]))
+      refine ⟨k + 1, by simp only [List.length_cons]; omega, by simp only [List.length_cons]; omega, ?_⟩
+      simp only [flushTriples]
+      rw [k3]
+      have h3 : 3 * (k + 1) = 3 * k + 3 := by omega
+      rw [h3]
+      simp only [List.take_succ_cons, List.drop_succ_cons, packTriples, Prod.mk.injEq, and_true]
+      apply St_ext <;> simp [w1, w2, w3, w4, w5, w6, w7, packTriples, List.append_assoc]
+    | [], _, _ => exact ⟨0, by simp, by simp, by simp [flushTriples, packTriples]⟩
+    | [_], _, _ => exact ⟨0, by simp, by simp, by simp [flushTriples, packTriples]⟩
+    | [_, _], _, _ => exact ⟨0, by simp, by simp, by simp [flushTriples, packTriples]⟩
+
+/-! ### encoder: loop invariant and outcomes -/
+
+def latchOf (text : Bool) : Nat := if text then 239 else 230
+def modeOf (text : Bool) : EMode := if text then .text else .c40
+
+/-- all C40 / Text values of the first `p` characters -/
+def W (text : Bool) (body : List Nat) (p : Nat) : List Nat := (body.take p).flatMap (c40Vals text)
+
+theorem W_succ (text : Bool) (body : List Nat) (p : Nat) (h : p < body.length) :
+    W text body (p + 1) = W text body p ++ c40Vals text body[p] := by
+  unfold W
+  have : body.take (p + 1) = body.take p ++ [body[p]] := by
+    rw [List.take_succ]; simp [List.getElem?_eq_getElem h]
+  rw [this, List.flatMap_append]
+  simp [List.flatMap]
+
+theorem W_lt (text : Bool) (body : List Nat) (hb : ByteList body) (p : Nat) : ∀ v ∈ W text body p, v < 40 :=
+  c40_vals_lt text (body.take p) (fun x hx => hb x (List.mem_of_mem_take hx))
+
+theorem W_dec (text : Bool) (body : List Nat) (hb : ByteList body) (p : Nat) (rest out : List Nat) :
+    c40Values (tabs text).1 (tabs text).2 (W text body p ++ rest) st0 out =
+      c40Values (tabs text).1 (tabs text).2 rest st0 (out ++ body.take p) :=
+  c40_bytes text (body.take p) (fun x hx => hb x (List.mem_of_mem_take hx)) rest out
+
+structure C40Inv (text : Bool) (list : List Sym) (body : List Nat) (s : St) (buf : List Nat) (lastCh m : Nat) : Prop where
+  input : s.input = body
+  list : s.list = list
+  mode : s.mode = modeOf text
+  plan : s.plan = [(0, modeOf text)]
+  newMode : s.newMode = none
+  le : s.pos ≤ body.length
+  m3 : 3 * m ≤ (W text body s.pos).length
+  bufEq : buf = (W text body s.pos).drop (3 * m)
+  short : buf.length ≤ 2
+  cw : s.cw = latchOf text :: packTriples ((W text body s.pos).take (3 * m))
+  last : 0 < s.pos → lastCh = body.getD (s.pos - 1) 0
+
+/-- what `c40::encode` leaves behind: a run given by its values `V` (decoding to the first `p`
+characters), UNLATCH or not, and — without UNLATCH — an exact fit of the rest into the symbol -/
+structure C40End (text : Bool) (list : List Sym) (body : List Nat) (s' : St) : Prop where
+  out : ∃ (V : List Nat) (n p : Nat) (un : Bool) (st' : CSt),
+    V.length = 3 * n ∧ (∀ v ∈ V, v < 40) ∧
+    (∀ out, c40Values (tabs text).1 (tabs text).2 V st0 out = .ok (st', out ++ body.take p)) ∧ p ≤ body.length ∧
+    s'.cw = latchOf text :: packTriples V ++ (if un then [254] else []) ∧ s'.pos = p ∧ s'.input = body ∧
+    s'.list = list ∧ s'.newMode = none ∧
+    ((s'.mode = .ascii ∧ s'.plan = [(0, .ascii)]) ∨ (p = body.length ∧ un = false)) ∧
+    (un = false → asciiSize (body.drop p) ≤ 1 ∧
+      ∃ S, firstBigEnough list (s'.cw.length + asciiSize (body.drop p)) = some S ∧
+        dataCw S = s'.cw.length + asciiSize (body.drop p))
+
+theorem vals_ne (text : Bool) (b : Nat) (hb : b < 256) : c40Vals text b ≠ [] := by
+  intro h
+  have := (c40_byte text b hb).1
+  rw [h] at this
+  simp [c40Values] at this
+
+/-- the values written so far, minus the last one (the last character will be re-encoded in ASCII) -/
+theorem dec_drop_last (text : Bool) (body : List Nat) (hb : ByteList body) (p : Nat) (hp : p < body.length) :
+    ∃ st', ∀ out, c40Values (tabs text).1 (tabs text).2
+      ((W text body (p + 1)).take ((W text body (p + 1)).length - 1)) st0 out = .ok (st', out ++ body.take p) := by
+  have hx : body[p] < 256 := hb _ (List.getElem_mem hp)
+  have hne := vals_ne text body[p] hx
+  have hlen : 0 < (c40Vals text body[p]).length := List.length_pos_iff.mpr hne
+  obtain ⟨st, hst⟩ := prefix_ok text body[p] hx ((c40Vals text body[p]).length - 1) (by omega)
+  refine ⟨st, fun out => ?_⟩
+  rw [W_succ text body p hp]
+  have : (W text body p ++ c40Vals text body[p]).length - 1 = (W text body p).length + ((c40Vals text body[p]).length - 1) := by
+    simp only [List.length_append]; omega
+  rw [this, List.take_append, Nat.add_sub_cancel_left, List.take_of_length_le (by omega), W_dec text body hb, hst]
+
+theorem fill_ok (text : Bool) (pad : List Nat) (hp : pad = [0] ∨ pad = [1] ∨ pad = [1, 30]) :
+    ∃ st, ∀ out, c40Values (tabs text).1 (tabs text).2 pad st0 out = .ok (st, out) := by
+  rcases hp with rfl | rfl | rfl
+  · exact ⟨{ shift := 1, upper := false }, fun out => by simp [c40Values, c40Value, st0]⟩
+  · exact ⟨{ shift := 2, upper := false }, fun out => by simp [c40Values, c40Value, st0]⟩
+  · exact ⟨{ shift := 0, upper := true }, fun out => by simp [c40Values, c40Value, st0]⟩
+
+theorem sizeLeft_eq (s : St) (k sl : Nat) (h : s.sizeLeft k = some sl) :
+    ∃ S, firstBigEnough s.list (s.cw.length + k) = some S ∧ dataCw S = s.cw.length + k + sl := by
+  unfold St.sizeLeft at h
+  cases hf : firstBigEnough s.list (s.cw.length + k) with
+  | none => rw [hf] at h; cases h
+  | some S =>
+    rw [hf] at h
+    simp only [Option.some.injEq] at h
+    have := firstBigEnough_le _ _ _ hf
+    exact ⟨S, rfl, by omega⟩
+
+/-- the end of `handle_end` when all characters are consumed: UNLATCH if there is room, else exact fit -/
+theorem finish_atEnd (text : Bool) (list : List Sym) (body : List Nat) (s1 s' : St) (V : List Nat) (n : Nat) (st' : CSt)
+    (hVl : V.length = 3 * n) (hVlt : ∀ v ∈ V, v < 40)
+    (hdec : ∀ out, c40Values (tabs text).1 (tabs text).2 V st0 out = .ok (st', out ++ body.take body.length))
+    (hcw : s1.cw = latchOf text :: packTriples V) (hpos : s1.pos = body.length) (hin : s1.input = body)
+    (hli : s1.list = list) (hnm : s1.newMode = none)
+    (h : (match s1.sizeLeftE 0 with
+      | .error e => .error e
+      | .ok left => if left > 0 then .ok ((s1.push 254).setAscii) else .ok s1) = Except.ok s') :
+    C40End text list body s' := by
+  unfold St.sizeLeftE at h
+  cases hsl : s1.sizeLeft 0 with
+  | none => rw [hsl] at h; cases h
+  | some left =>
+    rw [hsl] at h
+    simp only [] at h
+    obtain ⟨S, hS, hScap⟩ := sizeLeft_eq s1 0 left hsl
+    rw [hli] at hS
+    by_cases hl : left > 0
+    · rw [if_pos hl] at h
+      simp only [Except.ok.injEq] at h
+      subst h
+      exact ⟨V, n, body.length, true, st', hVl, hVlt, hdec, Nat.le_refl _, by simp [St.push, St.setAscii, hcw],
+        by simp [St.push, St.setAscii, hpos], by simp [St.push, St.setAscii, hin], by simp [St.push, St.setAscii, hli],
+        by simp [St.push, St.setAscii, hnm], Or.inl ⟨rfl, rfl⟩, by simp⟩
+    · rw [if_neg hl] at h
+      simp only [Except.ok.injEq] at h
+      subst h
+      refine ⟨V, n, body.length, false, st', hVl, hVlt, hdec, Nat.le_refl _, by simp [hcw], hpos, hin, hli, hnm,
+        Or.inr ⟨rfl, rfl⟩, fun _ => ?_⟩
+      have hd : body.drop body.length = [] := List.drop_eq_nil_of_le (Nat.le_refl _)
+      rw [hd]
+      simp only [asciiSize, Nat.add_zero, Nat.zero_le, true_and]
+      exact ⟨S, by simpa using hS, by omega⟩
+
+theorem handleEnd_atEnd (text : Bool) (list : List Sym) (body : List Nat) (hb : ByteList body) (s s' : St)
+    (buf : List Nat) (lastCh m : Nat) (inv : C40Inv text list body s buf lastCh m) (hend : s.hasMore = false)
+    (h : c40HandleEnd s lastCh buf = .ok s') : C40End text list body s' := by
+  have h1 := of_decide_eq_false hend
+  rw [inv.input] at h1
+  have hpos : s.pos = body.length := by have := inv.le; omega
+  have hW : W text body s.pos = (W text body s.pos).take (3 * m) ++ buf := by
+    rw [inv.bufEq, List.take_append_drop]
+  have hWlen : (W text body s.pos).length = 3 * m + buf.length := by
+    rw [inv.bufEq, List.length_drop]; have := inv.m3; omega
+  have hWlt := W_lt text body hb s.pos
+  have hbuflt : ∀ v ∈ buf, v < 40 := fun v hv => hWlt v (by rw [hW]; exact List.mem_append_right _ hv)
+  have hVlt : ∀ v ∈ (W text body s.pos).take (3 * m), v < 40 := fun v hv => hWlt v (List.mem_of_mem_take hv)
+  have hVlen : ((W text body s.pos).take (3 * m)).length = 3 * m := by rw [List.length_take]; have := inv.m3; omega
+  have hcharsLeft : s.charsLeft = 0 := by simp [St.charsLeft, inv.input, hpos]
+  unfold c40HandleEnd at h
+  rw [if_neg (by have := inv.short; omega)] at h
+  simp only [hend, Bool.not_false, ↓reduceIte, Bool.false_eq_true] at h
+  unfold St.sizeLeftE at h
+  cases hsl : s.sizeLeft buf.length with
+  | none => rw [hsl] at h; cases h
+  | some sl =>
+    rw [hsl] at h
+    simp only [] at h
+    obtain ⟨S, hS, hScap⟩ := sizeLeft_eq s buf.length sl hsl
+    rw [inv.list] at hS
+    by_cases c1 : sl + buf.length = 2 ∧ buf.length = 2
+    · -- two values left and exactly one codeword pair of room: fill with 0, no UNLATCH
+      rw [if_pos c1] at h
+      simp only [Except.ok.injEq] at h
+      subst h
+      match hbuf : buf, c1.2 with
+      | [b0, b1], _ =>
+        obtain ⟨w1, w2, w3, w4, w5, w6, w7⟩ := writeThree_cw s b0 b1 0 (hbuflt b0 (by simp)) (hbuflt b1 (by simp)) (by omega)
+        obtain ⟨stf, hstf⟩ := fill_ok text [0] (Or.inl rfl)
+        have hgd : writeThree s ([b0, b1].getD 0 0) ([b0, b1].getD 1 0) 0 = writeThree s b0 b1 0 := rfl
+        rw [hgd]
+        refine ⟨(W text body s.pos) ++ [0], m + 1, body.length, false, stf, by simp [hWlen]; omega, ?_, ?_, Nat.le_refl _,
+          ?_, by rw [w2]; exact hpos, by rw [w3]; exact inv.input, by rw [w4]; exact inv.list, by rw [w7]; exact inv.newMode,
+          Or.inr ⟨rfl, rfl⟩, fun _ => ?_⟩
+        · intro v hv
+          rcases List.mem_append.mp hv with hv | hv
+          · exact hWlt v hv
+          · simp only [List.mem_singleton] at hv; omega
+        · intro out
+          rw [W_dec text body hb, hstf, hpos]
+        · simp only [Bool.false_eq_true, ↓reduceIte, List.append_nil]
+          rw [w1, inv.cw]
+          conv => rhs; rw [hW, List.append_assoc, packTriples_append m _ _ hVlen]
+          simp [packTriples]
+        · have hd : body.drop body.length = [] := List.drop_eq_nil_of_le (Nat.le_refl _)
+          rw [hd]
+          simp only [asciiSize, Nat.add_zero, Nat.zero_le, true_and]
+          refine ⟨S, ?_, ?_⟩
+          · rw [w1]; simp only [List.length_append, packTriples, List.length_cons, List.length_nil]
+            simpa using hS
+          · rw [w1]; simp only [List.length_append, packTriples, List.length_cons, List.length_nil]
+            simp only [List.length_cons, List.length_nil] at hScap
+            omega
+    · rw [if_neg c1] at h
+      have hW0 : W text body 0 = [] := by simp [W]
+      have hpos1 : buf.length = 1 → 1 ≤ s.pos := by
+        intro hb1
+        by_cases h0 : s.pos = 0
+        · rw [h0, hW0] at hWlen; simp at hWlen; omega
+        · omega
+      by_cases c2 : sl + buf.length = 2 ∧ buf.length = 1
+      · -- one value left, room for UNLATCH + one codeword: drop the value, UNLATCH, last character in ASCII
+        rw [if_pos c2] at h
+        have hp1 := hpos1 c2.2
+        have hbk : ((s.push 254).setAscii).backup 1 = .ok { (s.push 254).setAscii with pos := s.pos - 1 } := by
+          unfold St.backup
+          rw [if_pos (by simpa [St.push, St.setAscii] using hp1)]
+          rfl
+        rw [hbk] at h
+        simp only [Except.ok.injEq] at h
+        subst h
+        have hp : s.pos - 1 < body.length := by omega
+        obtain ⟨st', hdec⟩ := dec_drop_last text body hb (s.pos - 1) hp
+        have hpp : s.pos - 1 + 1 = s.pos := by omega
+        rw [hpp] at hdec
+        have h3m : 3 * m = (W text body s.pos).length - 1 := by omega
+        rw [← h3m] at hdec
+        exact ⟨_, m, s.pos - 1, true, st', hVlen, hVlt, hdec, by omega, by simp [St.push, St.setAscii, inv.cw],
+          rfl, by simp [St.push, St.setAscii, inv.input], by simp [St.push, St.setAscii, inv.list],
+          by simp [St.push, St.setAscii, inv.newMode], Or.inl ⟨rfl, rfl⟩, by simp⟩
+      · rw [if_neg c2] at h
+        by_cases c3 : sl + buf.length = 1 ∧ buf.length = 1 ∧ asciiSize [lastCh] = 1
+        · -- one value left, exactly one codeword of room, last character is one ASCII codeword: no UNLATCH
+          rw [if_pos c3] at h
+          have hp1 := hpos1 c3.2.1
+          have hbk : s.setAscii.backup 1 = .ok { s.setAscii with pos := s.pos - 1 } := by
+            unfold St.backup
+            rw [if_pos (by simpa [St.setAscii] using hp1)]
+            rfl
+          rw [hbk] at h
+          simp only [Except.ok.injEq] at h
+          subst h
+          have hp : s.pos - 1 < body.length := by omega
+          obtain ⟨st', hdec⟩ := dec_drop_last text body hb (s.pos - 1) hp
+          have hpp : s.pos - 1 + 1 = s.pos := by omega
+          rw [hpp] at hdec
+          have h3m : 3 * m = (W text body s.pos).length - 1 := by omega
+          rw [← h3m] at hdec
+          refine ⟨_, m, s.pos - 1, false, st', hVlen, hVlt, hdec, by omega, by simp [St.setAscii, inv.cw],
+            rfl, by simp [St.setAscii, inv.input], by simp [St.setAscii, inv.list],
+            by simp [St.setAscii, inv.newMode], Or.inl ⟨rfl, rfl⟩, fun _ => ?_⟩
+          have hlast : lastCh = body[s.pos - 1] := by
+            rw [inv.last (by omega)]
+            simp [List.getD, List.getElem?_eq_getElem hp]
+          have hdrop : body.drop (s.pos - 1) = [lastCh] := by
+            rw [List.drop_eq_getElem_cons hp, ← hlast, List.drop_eq_nil_of_le (by omega)]
+          simp only [St.setAscii, hdrop, c3.2.2]
+          refine ⟨Nat.le_refl _, S, ?_, ?_⟩
+          · rw [c3.2.1] at hS; exact hS
+          · omega
+        · rw [if_neg c3] at h
+          simp only [] at h
+          -- fill the last triple (if any values are left), then UNLATCH if there is room
+          match hbuf : buf, inv.short with
+          | [], _ =>
+            simp only [List.isEmpty_nil, Bool.not_true, Bool.false_eq_true, ↓reduceIte, hcharsLeft, Nat.lt_irrefl] at h
+            have hV : (W text body s.pos).take (3 * m) = W text body s.pos := by
+              have := hW
+              rw [List.append_nil] at this
+              exact this.symm
+            refine finish_atEnd text list body s s' _ m st0 hVlen hVlt ?_ inv.cw hpos inv.input inv.list inv.newMode ?_
+            · intro out
+              rw [hV]
+              have := W_dec text body hb s.pos [] out
+              simp only [List.append_nil, c40Values] at this
+              rw [this, hpos]
+            · exact h
+          | [b0], _ =>
+            obtain ⟨w1, w2, w3, w4, w5, w6, w7⟩ := writeThree_cw s b0 1 30 (hbuflt b0 (by simp)) (by omega) (by omega)
+            obtain ⟨stf, hstf⟩ := fill_ok text [1, 30] (Or.inr (Or.inr rfl))
+            have hcl : ((writeThree s b0 1 30).setAscii).charsLeft = 0 := by
+              simp [St.charsLeft, St.setAscii, w2, w3, inv.input, hpos]
+            simp only [List.isEmpty_cons, Bool.not_false, ↓reduceIte, List.cons_append, List.nil_append, List.length_cons,
+              List.length_nil, List.getD_cons_zero, List.getD_cons_succ, Bool.false_eq_true, Nat.reduceAdd, hcl,
+              Nat.lt_irrefl] at h
+            refine finish_atEnd text list body _ s' (W text body s.pos ++ [1, 30]) (m + 1) stf (by simp [hWlen]; omega) ?_ ?_ ?_
+              (by simp [St.setAscii, w2, hpos]) (by simp [St.setAscii, w3, inv.input]) (by simp [St.setAscii, w4, inv.list])
+              (by simp [St.setAscii, w7, inv.newMode]) h
+            · intro v hv
+              rcases List.mem_append.mp hv with hv | hv
+              · exact hWlt v hv
+              · simp only [List.mem_cons, List.not_mem_nil, or_false] at hv; omega
+            · intro out
+              rw [W_dec text body hb, hstf, hpos]
+            · simp only [St.setAscii]
+              rw [w1, inv.cw]
+              conv => rhs; rw [hW, List.append_assoc, packTriples_append m _ _ hVlen]
+              simp [packTriples]
+          | [b0, b1], _ =>
+            obtain ⟨w1, w2, w3, w4, w5, w6, w7⟩ := writeThree_cw s b0 b1 1 (hbuflt b0 (by simp)) (hbuflt b1 (by simp)) (by omega)
+            obtain ⟨stf, hstf⟩ := fill_ok text [1] (Or.inr (Or.inl rfl))
+            have hcl : ((writeThree s b0 b1 1).setAscii).charsLeft = 0 := by
+              simp [St.charsLeft, St.setAscii, w2, w3, inv.input, hpos]
+            simp only [List.isEmpty_cons, Bool.not_false, ↓reduceIte, List.cons_append, List.nil_append, List.length_cons,
+              List.length_nil, List.getD_cons_zero, List.getD_cons_succ, Bool.false_eq_true, Nat.reduceAdd, hcl,
+              Nat.lt_irrefl, Nat.reduceEqDiff] at h
+            refine finish_atEnd text list body _ s' (W text body s.pos ++ [1]) (m + 1) stf (by simp [hWlen]; omega) ?_ ?_ ?_
+              (by simp [St.setAscii, w2, hpos]) (by simp [St.setAscii, w3, inv.input]) (by simp [St.setAscii, w4, inv.list])
+              (by simp [St.setAscii, w7, inv.newMode]) h
+            · intro v hv
+              rcases List.mem_append.mp hv with hv | hv
+              · exact hWlt v hv
+              · simp only [List.mem_singleton] at hv; omega
+            · intro out
+              rw [W_dec text body hb, hstf, hpos]
+            · simp only [St.setAscii]
+              rw [w1, inv.cw]
+              conv => rhs; rw [hW, List.append_assoc, packTriples_append m _ _ hVlen]
+              simp [packTriples]
+          | _ :: _ :: _ :: _, hs => simp at hs
 
 end DM.Lemmas.C40RT
